@@ -15,7 +15,7 @@ META = {
         "RTCM_HDR folding to b'\\xd3', len2bytes = len(x).to_bytes(2,'big'), crc2bytes = calc_crc24q(x).to_bytes(3,'big'); D2 writer/reader agreement: the writer's part sizes "
         "[1,2,n,3] agree with the static parser's slice constants (shared C01-D5); "
         "D3 the payload is stored once, verbatim, and the getter returns the stored object; D4 the repr template parses as a construction of the enclosing class with the "
-        "payload keyword and the stored payload as its only hole; plus the shared CRC transfer function (C08-D1). Equality of attribute values after a round trip follows from determinism (C13), not decided here."
+        "payload keyword and the stored payload as its only hole; D5 the static parser builds the message from its own arguments only; plus the shared CRC transfer function (C08-D1), the identity read off the payload bits alone (C15-D1), the checksum bytes reaching nothing but the CRC test (C08-D4) and the decode reading no state left by an earlier parse (C13-D1 in the decoder)."
     ),
     "trusted": ["CPython ast parser", "sa/symeval.py, sa/domains.py", "oracle/frames.json"],
 }
@@ -150,6 +150,27 @@ def run(eng, ctx):
     # "parsing that output gives a message with the same ... attribute values": the decode is a function of the payload alone - nothing it reads was
     # left behind by an earlier parse (C13-D1 in the decoder, shared)
     SH.decoder_reads_no_mutable_state(eng, ctx, "C13.D1")
+    # "... with the same payload, identity ...": the identity is read off the leading bits of the payload and nothing else (C15-D1, shared), and the
+    # static parser hands the constructor the payload slice and its own arguments only (C08-D4, shared; C07-D5)
+    SH.identity_bits(eng, ctx, "C15.D1")
+    from .C08 import trailer_unused
+
+    trailer_unused(eng, ctx, "C08.D4")
+    ctx.rule("C07.D5", "the static parser builds the message from its arguments only: no constructor argument reads a class attribute, a module-level variable or any other state "
+                       "that a reader or an earlier parse may have set")
+    pr = eng.repo.func(f"{eng.reader_cls}.parse")
+    sp = eng.symeval(pr.qualname)
+    nctor = 0
+    for e in sp.effects:
+        if e.kind == "call" and e.term[2] == ("class", eng.message_cls):
+            nctor += 1
+            args = list(e.term[3]) + [v for _, v in e.term[4]]
+            from .util import subterms as _sub
+
+            state = sorted({show(t_)[:50] for a in args for t_ in _sub(a) if isinstance(t_, tuple) and t_ and
+                            ((t_[0] == "attr" and isinstance(t_[1], tuple) and t_[1] and t_[1][0] in ("class", "self")) or t_[0] in ("field", "fieldv", "global", "modvar"))})
+            ctx.check(not state, "C07.D5", pr.qualname, norm(e.node)[:70], expected="arguments derived from parse()'s own parameters", found=", ".join(state) or "-", **eng.loc(pr, e.node))
+    ctx.instance("constructor calls in the static parser", nctor, 1)
 
     # ---------------- D4 repr
     ctx.rule("C07.D4", "the repr template parses as <EnclosingClass>(payload=<hole>) with the stored payload as the hole, unconverted or !r")
